@@ -95,6 +95,7 @@ type Session struct {
 	Env   *nfsx.Env
 	Init  []specfs.Entry
 	Twin  *nfsx.Env // optional second server with minimal caches, fed the same requests
+	twinLag int64
 	Steps []*Step
 	// what the generator knows
 	Handles []uint64
@@ -116,13 +117,19 @@ func NewSession(c Cfg, populate func(fs *specfs.FS)) *Session {
 }
 
 func (s *Session) Do(advNs int64, c nfsx.Cred, r *nfsx.Req) *Step {
+	// the twin executes 2 ns after the primary (so that its 1 ns caches never answer); that shift is part
+	// of the next step's declared clock advance
 	if advNs != 0 {
 		absnfs.VerifAdvanceClock(advNs)
 	}
+	advNs += s.twinLag // already applied to the clock when the twin ran
+	s.twinLag = 0
 	s.Env.FS.TakeLog()
 	o := s.Env.Do(c, r)
 	st := &Step{AdvNs: advNs, Cred: c, Req: r, Obs: o, Calls: s.Env.FS.TakeLog(), NH: s.Env.NFS.VerifFileMap().Count(), Dump: s.Env.FS.Dump(false)}
 	if s.Twin != nil {
+		absnfs.VerifAdvanceClock(2)
+		s.twinLag = 2
 		st.Obs2 = s.Twin.Do(c, r)
 	}
 	s.Steps = append(s.Steps, st)
@@ -181,8 +188,15 @@ func (s *Session) pickHandle(r *Rand) uint64 {
 	if len(s.Handles) == 0 || r.Chance(4) {
 		return PickU64(r, 0, 999, 77)
 	}
-	if r.Chance(35) {
+	if r.Chance(30) {
 		return s.Handles[0] // usually the root
+	}
+	if r.Chance(40) { // recency bias: one of the three most recently learnt handles
+		k := len(s.Handles) - 1 - r.Intn(3)
+		if k < 0 {
+			k = 0
+		}
+		return s.Handles[k]
 	}
 	return s.Handles[r.Intn(len(s.Handles))]
 }
